@@ -1,0 +1,58 @@
+//go:build verif
+
+package spine
+
+import (
+	"sync/atomic"
+
+	"github.com/enbility/spine-go/model"
+)
+
+// Verification hooks for the write-approval bookkeeping of FeatureLocal (build tag
+// `verif` only): the harness parks the body of an approval timer when it starts, so
+// that it can place the timeout anywhere in a schedule, and reads the bookkeeping maps.
+
+var verifApprovalTimerFn atomic.Pointer[func(phase int, ski string, counter uint64)]
+
+// VerifSetApprovalTimerHook installs (or, with nil, removes) the callback that the body
+// of every write-approval timer calls when it starts (phase 0) and when it returns (phase 1).
+func VerifSetApprovalTimerHook(f func(phase int, ski string, counter uint64)) {
+	if f == nil {
+		verifApprovalTimerFn.Store(nil)
+		return
+	}
+	verifApprovalTimerFn.Store(&f)
+}
+
+func verifApprovalTimer(phase int, ski string, counter model.MsgCounterType) {
+	if f := verifApprovalTimerFn.Load(); f != nil {
+		(*f)(phase, ski, uint64(counter))
+	}
+}
+
+// VerifWriteApprovalState returns copies of the keys of the pending-approval map and of
+// the approval tally (read-only; for the state projection of the harness).
+func (r *FeatureLocal) VerifWriteApprovalState() (pending map[string][]uint64, tally map[string]map[uint64]int) {
+	pending = make(map[string][]uint64)
+	tally = make(map[string]map[uint64]int)
+
+	r.muxWriteReceived.Lock()
+	for ski, m := range r.writeApprovalReceived {
+		tally[ski] = make(map[uint64]int)
+		for c, n := range m {
+			tally[ski][uint64(c)] = n
+		}
+	}
+	r.muxWriteReceived.Unlock()
+
+	r.muxResponseCB.Lock()
+	for ski, m := range r.pendingWriteApprovals {
+		pending[ski] = []uint64{}
+		for c := range m {
+			pending[ski] = append(pending[ski], uint64(c))
+		}
+	}
+	r.muxResponseCB.Unlock()
+
+	return pending, tally
+}
